@@ -159,9 +159,67 @@ func (o *optimizer) optimizeDelayCall() {
 	o.m.Match(
 		delayCallWithNoEffectDirectReturn,
 		func(c *astmatcher.Cursor, ctx astmatcher.Ctx) {
-			c.Replace(ctx.Binds["return"])
+			// the arguments are evaluated where the Delay call stands, no longer when the thunk runs
+			if call := ctx.Binds["return"].(*ast.CallExpr); valuesOnly(ctx, call.Args) {
+				c.Replace(call)
+			}
 		},
 	)
+}
+
+// whether evaluating the exprs has no effect: literals, func literals, names,
+// and calls of the no effect combinators over such exprs.
+// e.g., hand-written Delay(func() Seq[T] { return Combine(mk(1), mk(2)) }) must keep its Delay
+func valuesOnly(ctx astmatcher.Ctx, exprs []ast.Expr) bool {
+	for _, expr := range exprs {
+		switch e := expr.(type) {
+		case *ast.BasicLit, *ast.FuncLit, *ast.Ident:
+		case *ast.ParenExpr:
+			if !valuesOnly(ctx, []ast.Expr{e.X}) {
+				return false
+			}
+		case *ast.SelectorExpr:
+			if !valuesOnly(ctx, []ast.Expr{e.X}) {
+				return false
+			}
+		case *ast.IndexExpr: // F[T]
+			if !isType(ctx, e.Index) || !valuesOnly(ctx, []ast.Expr{e.X}) {
+				return false
+			}
+		case *ast.IndexListExpr: // F[T1, T2]
+			if !valuesOnly(ctx, []ast.Expr{e.X}) {
+				return false
+			}
+		case *ast.CallExpr:
+			fn, _ := ctx.Callee(e).(*types.Func)
+			if fn == nil || fn.Pkg() == nil || fn.Pkg().Path() != pkgSeqPath {
+				return false
+			}
+			switch fn.Name() {
+			case cstDelay, cstCombine, cstFor, cstWhile, cstLoop, cstReturn, cstNormal, cstBreak, cstContinue:
+			case cstBind:
+				// only the first parameter of Bind has side effects
+				if len(e.Args) != 2 {
+					return false
+				}
+				if _, lit := e.Args[0].(*ast.BasicLit); !lit {
+					return false
+				}
+			default:
+				return false
+			}
+			if !valuesOnly(ctx, e.Args) {
+				return false
+			}
+		default:
+			return false
+		}
+	}
+	return true
+}
+
+func isType(ctx astmatcher.Ctx, e ast.Expr) bool {
+	return ctx.TypeInfo().Types[e].IsType()
 }
 
 // eat reduction overrides this particularity optimization
